@@ -52,6 +52,13 @@ func shardChildMain(args []string) {
 	fs.StringVar(&a.keepDir, "keepdir", "", "")
 	fs.StringVar(&a.recover, "recover", "", "")
 	fs.Parse(args)
+	if a.profile == "c09" {
+		if err := runC09Child(a); err != nil {
+			fmt.Fprintln(os.Stderr, "shardrun error:", err)
+			os.Exit(4)
+		}
+		return
+	}
 	if err := runShardChild(a); err != nil {
 		fmt.Fprintln(os.Stderr, "shardrun error:", err)
 		os.Exit(4)
